@@ -435,7 +435,10 @@ fn choose_edit<'py>(py: Python<'py>, site: &Site<'py, '_>, o: &mut Src) -> Optio
             match o.below(7) {
                 0 => {
                     // one non-hex digit
-                    let bad = *o.pick(&['g', 'G', 'x', ' ', '-', 'O']);
+                    // characters that sloppy parsers tolerate: signs (integer parsers accept a
+                    // leading '+'), separators, whitespace, look-alikes, neighbours of the hex
+                    // ranges in ASCII ('/', ':', '@', '`'), full-width digits
+                    let bad = *o.pick(&['g', 'G', 'x', ' ', '-', 'O', '+', '_', '.', ':', '/', '@', '`', '\n', '\u{ff11}', 'l']);
                     let t = if ndig == 0 {
                         format!("0x{bad}{bad}")
                     } else {
